@@ -498,6 +498,7 @@ def run(chk, replay=None):
     dist = {}
     confirmed = set()
     inconcl = 0
+    n_nslist = 0
     for rq, meta, o in zip(reqs, metas, obs):
         rc = meta["rc"]
         ep = (rc["path"], rc["method"])
@@ -538,6 +539,28 @@ def run(chk, replay=None):
                                  "%s %s returned data of namespace %r to a user whose privilege (%s) does not permit it"
                                  % (rc["method"], rc["path"], ns_m, meta["cls"]), rp_obj)
                     break
+        # round 7: a namespace LISTING names the namespaces themselves (no data marker inside): every listed id must be
+        # permitted ("listings never include items from it"; the default namespace counts like any other)
+        if allowed and rc["kind"] == "read" and rc["path"] in (V2 + "/namespaces/list", V1 + "/namespaces") and rc["method"] == "GET":
+            try:
+                jb = json.loads(o.get("body") or "null")
+            except ValueError:
+                jb = None
+            items = jb.get("data") if isinstance(jb, dict) else jb
+            listed = [e.get("namespaceId") for e in items if isinstance(e, dict)] if isinstance(items, list) else None
+            if listed is None:
+                inconcl += 1
+            else:
+                n_nslist += 1
+                for ns_l in listed:
+                    ns_l = ns_l or ""
+                    if not permitted(meta["group"], ns_l):
+                        confirmed.add(ep)
+                        chk.classify("unguarded:%s:%s" % (rc["method"], rc["path"]),
+                                     "%s %s lists namespace %r for a user whose privilege (%s) does not permit it"
+                                     % (rc["method"], rc["path"], ns_l, meta["cls"]), dict(rp_obj, listed=listed))
+                        break
+    chk.cov["namespace_listings_judged"] = n_nslist
     # every statically unguarded data endpoint is a finding even when the sweep has no recipe for it
     for p, m in static_unguarded:
         chk.classify("unguarded:%s:%s" % (m, p), "%s %s (handler %s) applies no namespace privilege" % (m, p, handler_of[(p, m)]),
